@@ -271,7 +271,7 @@ def cases(rng, tier):
     n = 1300 if quick else 25000
     made = 0
     while made < n:
-        boundaries, pcs = None, None
+        boundaries, pcs, used = None, None, None
         if rng.chance(1, 6):
             path, env = gen_forged(rng)
         elif rng.chance(1, 6):
@@ -289,7 +289,16 @@ def cases(rng, tier):
         if not usable(path):
             continue
         made += 1
-        out += with_sites(rng, path, env, boundaries=boundaries)
+        new = with_sites(rng, path, env, boundaries=boundaries)
+        if pcs is not None and used:
+            # referenced variables that are NOT set as far as `std::env::var` is concerned because their value is not
+            # valid UTF-8 (7th field: the harness sets them to the bytes "raw\xffvalue"; the model and the oracles do
+            # not see them): the reference stays as it is
+            raw = [nm for nm in used if nm not in env and nm in NAMES]
+            if raw and rng.chance(1, 2):
+                for c in new:
+                    c.append([cps(nm) for nm in sorted(set(raw))])
+        out += new
     for _ in range(250 if quick else 5000):
         pattern, env, count, rolls = gen_roller(rng)
         if usable(pattern):
@@ -311,7 +320,7 @@ def model_lines(ctx, cases_, lines, impl_lines):
             al = None
         if al is None:   # the harness died on this case: fall back to Python's classification
             al = sorted(set(x for x in c[1] + c[3] if x > 127 and chr(x).isalnum()))
-        out.append(vc.show(list(c) + [al]))
+        out.append(vc.show(list(c[:6]) + [al]))
     return out
 
 
